@@ -9,8 +9,10 @@ package nodeslo
 // slov1alpha1.{ResourceThreshold,ResourceQOS,CPUBurst,System}Strategy and []HostApplicationSpec,
 // abstract configuration trees (wire format of coq/C20/Model.v [enc]) are generated from the
 // schema, rendered to ConfigMap JSON text, fed to the REAL event handler
-// (SLOCfgHandlerForConfigMapEvent.Create/Update/Delete/IsCfgAvailable), and after every event
-// NodeSLOReconciler.getNodeSLOSpec is called for every probe node and flattened back by reflection.
+// (SLOCfgHandlerForConfigMapEvent.Create/Update/Delete/IsCfgAvailable), and after every event the
+// REAL NodeSLOReconciler.Reconcile runs for every probe node on a fake client (it creates / updates
+// the NodeSLO objects itself); the observable is the DELIVERED NodeSLO.Spec read back from the
+// client and flattened by reflection.
 //
 // input  = nsecs (merge? default-tree)*  nnodes (nlabels (key value)*)*  nops op*   (see coq/C20/Extract.v)
 
@@ -28,6 +30,8 @@ import (
 	corev1 "k8s.io/api/core/v1"
 	"k8s.io/apimachinery/pkg/api/resource"
 	metav1 "k8s.io/apimachinery/pkg/apis/meta/v1"
+	"k8s.io/apimachinery/pkg/runtime"
+	"k8s.io/apimachinery/pkg/types"
 	"k8s.io/apimachinery/pkg/util/intstr"
 	clientgoscheme "k8s.io/client-go/kubernetes/scheme"
 	"k8s.io/client-go/tools/record"
@@ -532,12 +536,13 @@ func vtC20Exec(in []int64) []int64 {
 	for i := range nodes {
 		objs[i] = nodes[i].DeepCopy()
 	}
-	cl := fake.NewClientBuilder().WithScheme(clientgoscheme.Scheme).WithObjects(objs...).Build()
+	cl := fake.NewClientBuilder().WithScheme(vtC20Scheme).WithObjects(objs...).Build()
 	handler := NewSLOCfgHandlerForConfigMapEvent(cl, DefaultSLOCfg(), &record.FakeRecorder{})
-	rec := &NodeSLOReconciler{Client: cl, sloCfgCache: handler, Scheme: clientgoscheme.Scheme, Recorder: &record.FakeRecorder{}}
+	rec := &NodeSLOReconciler{Client: cl, sloCfgCache: handler, Scheme: vtC20Scheme, Recorder: &record.FakeRecorder{}}
 	q := workqueue.NewTypedRateLimitingQueue[reconcile.Request](workqueue.DefaultTypedControllerRateLimiter[reconcile.Request]())
 	defer q.ShutDown()
 
+	// the informer cache (the client) holds the slo-controller ConfigMap the way the API server would
 	setInformer := func(cm *corev1.ConfigMap) {
 		old := &corev1.ConfigMap{}
 		if err := cl.Get(ctx, client.ObjectKey{Namespace: sloconfig.ConfigNameSpace, Name: sloconfig.SLOCtrlConfigMap}, old); err == nil {
@@ -547,6 +552,11 @@ func vtC20Exec(in []int64) []int64 {
 			if err := cl.Create(ctx, cm.DeepCopy()); err != nil {
 				panic(err)
 			}
+		}
+	}
+	reconcileOne := func(req reconcile.Request) {
+		if _, err := rec.Reconcile(ctx, req); err != nil {
+			panic(err)
 		}
 	}
 
@@ -560,14 +570,18 @@ func vtC20Exec(in []int64) []int64 {
 		}
 		switch kind {
 		case 0:
+			setInformer(cm)
 			handler.Create(ctx, event.TypedCreateEvent[client.Object]{Object: cm}, q)
 		case 1:
 			old := cm.DeepCopy()
 			old.Data["zz-previous"] = "x"
+			setInformer(cm)
 			handler.Update(ctx, event.TypedUpdateEvent[client.Object]{ObjectOld: old, ObjectNew: cm}, q)
 		case 2:
+			setInformer(cm)
 			handler.Update(ctx, event.TypedUpdateEvent[client.Object]{ObjectOld: cm.DeepCopy(), ObjectNew: cm}, q)
 		case 3:
+			setInformer(nil)
 			handler.Delete(ctx, event.TypedDeleteEvent[client.Object]{Object: cm}, q)
 		case 4:
 			other := cm.DeepCopy()
@@ -582,12 +596,25 @@ func vtC20Exec(in []int64) []int64 {
 		default:
 			panic("verif C20: bad op kind")
 		}
+		// delivery: first whatever the handler enqueued, then every probe node (node events and
+		// resyncs reconcile nodes at any time); the REAL Reconcile creates / updates the NodeSLO
+		for q.Len() > 0 {
+			req, _ := q.Get()
+			reconcileOne(req)
+			q.Forget(req)
+			q.Done(req)
+		}
 		for _, node := range nodes {
-			spec, err := rec.getNodeSLOSpec(node, nil)
-			if err != nil || spec == nil {
+			reconcileOne(reconcile.Request{NamespacedName: types.NamespacedName{Name: node.Name}})
+		}
+		// the observable is what was DELIVERED: NodeSLO.Spec read back from the API (fake client)
+		for _, node := range nodes {
+			nodeSLO := &slov1alpha1.NodeSLO{}
+			if err := cl.Get(ctx, types.NamespacedName{Name: node.Name}, nodeSLO); err != nil {
 				obs = append(obs, -888888)
 				continue
 			}
+			spec := &nodeSLO.Spec
 			vtC20Flat(vtC20Sections[0].sch, reflect.ValueOf(spec.ResourceUsedThresholdWithBE), &obs)
 			vtC20Flat(vtC20Sections[1].sch, reflect.ValueOf(spec.ResourceQOSStrategy), &obs)
 			vtC20Flat(vtC20Sections[2].sch, reflect.ValueOf(spec.CPUBurstStrategy), &obs)
@@ -597,6 +624,13 @@ func vtC20Exec(in []int64) []int64 {
 	}
 	return obs
 }
+
+var vtC20Scheme = func() *runtime.Scheme {
+	s := runtime.NewScheme()
+	_ = clientgoscheme.AddToScheme(s)
+	_ = slov1alpha1.AddToScheme(s)
+	return s
+}()
 
 // ---------------------------------------------------------------- generator
 
